@@ -41,11 +41,11 @@ type Conn struct {
 	closedCh  chan struct{}
 	OnWrite   func(idx int, b []byte) (int, error) // nil: accept everything
 	OnClose   func() error
-	Hook      func(c *Conn, op string)          // yield point for the deterministic scheduler (called before each operation)
+	Hook      func(c *Conn, op string) // yield point for the deterministic scheduler (called before each operation)
 	AfterHook func(c *Conn, op string)
 	Deadlines []time.Time
-	Canary    int // plain variable touched by every Write/Read (race detector judges happens-before)
-	FragMax   int // >0: deliver at most FragMax bytes per Read call
+	Canary    int             // plain variable touched by every Write/Read (race detector judges happens-before)
+	FragMax   int             // >0: deliver at most FragMax bytes per Read call
 	Log       func(ev string) // ordered log of environment calls (w:<id>:<offered hex>:<accepted>, c:<id>, d:<id>)
 }
 
